@@ -500,12 +500,28 @@ def run_case(ck, case, reqs, pending, stats):
         try:
             Image.fromarray(arr).save(path)
             r2 = fmyosin.read_myosin(b.frame, path, case["integrate"], case["normalize"], case["layers"], **b.kw)
+            # with use_all the list given is every interface of the frame, in the frame's order
+            try:
+                r3 = fmyosin.read_myosin(b.frame, path, case["integrate"], case["normalize"], case["layers"], use_all=True, **b.kw)
+            except FloatingPointError:
+                r3 = None
+            except Exception as ex:           # noqa: BLE001
+                r3 = ("raises", f"{type(ex).__name__}: {str(ex)[:120]}")
         finally:
             os.unlink(path)
         full = call(list(b.frame.internal_big_edges), arr, case, b.kw)
         if full[0] == "raises" or [(k, float(v)) for k, v in r2.items()] != full[0]:
             ck.fail("read_myosin = get_intensities on the frame's internal interfaces", f"{list(r2.items())[:3]} vs {full[0][:3] if full[0] != 'raises' else full}", case)
         ck.count("read_myosin_checked")
+        if r3 is not None:
+            every = call(list(b.frame.big_edges.values()), arr, case, b.kw)
+            if isinstance(r3, tuple):
+                if every[0] != "raises":
+                    ck.fail("read_myosin(use_all=True) = get_intensities on all interfaces of the frame, in the frame's order", r3[1], case)
+            elif every[0] == "raises" or [(k, float(v)) for k, v in r3.items()] != every[0]:
+                ck.fail("read_myosin(use_all=True) = get_intensities on all interfaces of the frame, in the frame's order",
+                        f"{list(r3.items())[:3]} vs {every[0][:3] if every[0] != 'raises' else every}", case)
+            ck.count("read_myosin_use_all_checked")
         obs = call(lst, arr, case, b.kw)
     oracle(ck, case, b, lst, arr, obs, stats)
     # restore the observation (the oracle re-ran the code with other settings: gt was overwritten)
